@@ -94,6 +94,62 @@ func cmdCheck(args []string) int {
 	var outsideFns []string
 	var crashes []string
 	var missing []string
+	// first pass: generate every function's obligations
+	exOf := map[string]*Exec{}
+	crashOf := map[string]string{}
+	for _, n := range p.cs.Order {
+		c := p.cs.Funcs[n]
+		if _, ok := p.funcs[baseName(n)]; !ok || c.Trusted || c.Skip {
+			continue
+		}
+		ex, crashed := p.verifyFuncSafe(n)
+		if crashed != "" {
+			crashOf[n] = crashed
+			continue
+		}
+		exOf[n] = ex
+	}
+	// The proof of a clause uses, at every call, all the postconditions of the callee's contract, and
+	// inside a function all its loop invariants. So the obligations a property rests on are: those that
+	// carry its tag, and the contract obligations (postconditions, invariants, call preconditions) of
+	// every function under contract reachable from a function that has tagged obligations.
+	owner := map[string]bool{}
+	for n, ex := range exOf {
+		for _, o := range ex.obls {
+			if hasProp(o, id) {
+				owner[n] = true
+				break
+			}
+		}
+	}
+	for n := range crashOf {
+		if participates(p.cs.Funcs[n], id) {
+			owner[n] = true
+		}
+	}
+	depends := map[string]bool{}
+	var visit func(n string)
+	visit = func(n string) {
+		if depends[n] {
+			return
+		}
+		depends[n] = true
+		for _, cal := range p.callees[baseName(n)] {
+			if c := p.contractFor(n, cal); c != nil {
+				visit(c.Func)
+			}
+		}
+	}
+	for n := range owner {
+		visit(n)
+	}
+	isContractObl := func(o *Obligation) bool {
+		if o.Kind == "post" || o.Kind == "requires" {
+			return true
+		}
+		return strings.HasPrefix(o.Kind, "loop") && !strings.HasPrefix(strings.TrimPrefix(o.Name, o.Func+"/"+o.Kind+"/"), "variant")
+	}
+	nDep := 0
 	for _, n := range p.cs.Order {
 		c := p.cs.Funcs[n]
 		if _, ok := p.funcs[baseName(n)]; !ok {
@@ -103,23 +159,27 @@ func cmdCheck(args []string) int {
 		if c.Trusted || c.Skip {
 			continue
 		}
-		ex, crashed := p.verifyFuncSafe(n)
-		if crashed != "" {
-			if participates(c, id) {
+		if crashed, bad := crashOf[n]; bad {
+			if participates(c, id) || depends[n] {
 				crashes = append(crashes, n+": "+crashed)
 			}
 			continue
 		}
+		ex := exOf[n]
 		fr := &funcReport{Name: n}
 		for _, o := range ex.obls {
 			if hasProp(o, id) {
 				all = append(all, o)
 				fr.Obligations++
+			} else if depends[n] && isContractObl(o) {
+				all = append(all, o)
+				fr.Obligations++
+				nDep++
 			}
 		}
 		if len(ex.unsupported) > 0 {
 			fr.Unsupported = ex.unsupported
-			if fr.Obligations > 0 || participates(c, id) {
+			if fr.Obligations > 0 || participates(c, id) || depends[n] {
 				outside = append(outside, n+": "+strings.Join(ex.unsupported, "; "))
 				outsideFns = append(outsideFns, n)
 			}
@@ -272,6 +332,7 @@ func cmdCheck(args []string) int {
 			"known_findings":    keysOf(knownHit),
 			"outside_subset":    outside,
 			"functions_without_contract_in_packages": unverified,
+			"dependency_obligations_included": nDep,
 			"explanation":       "every obligation is generated from the SSA form of /repo's current working tree plus the //@ contracts in /repo/verif_contracts.go; unsat of the negated obligation holds for all values of the symbolic inputs",
 		},
 		"assumptions": as,
@@ -406,11 +467,11 @@ func (p *Prog) vacuityChecks(obls []*Obligation, dir string) []string {
 // globalObligations: lemma obligations owned by a property.
 func (p *Prog) globalObligations(id string) []*Obligation {
 	var out []*Obligation
+	// every lemma is offered to every proof (by trigger), so every check proves all of them
 	for _, o := range p.lemmaObligations() {
-		if hasProp(o, id) {
-			out = append(out, o)
-		}
+		out = append(out, o)
 	}
+	_ = id
 	return out
 }
 
